@@ -49,9 +49,32 @@ CasesFor(x) ==
                             d \in 0..(o + 1), pos \in 1..(o - 1), nd \in {0, 1}} : o \in 2..3}
         ELSE {})
 
-Init == \E g \in GridsI : \E x \in Windows(g) : st = [ph |-> 0, x |-> x]
+\* size sweep: many nodes.  The exact solution of a general problem with many nodes has denominators that grow
+\* like (2 + sqrt 3)^n and leaves TLC's integers; data taken from one global polynomial of the spline's degree
+\* with the boundary conditions that polynomial satisfies has the polynomial itself as its unique
+\* interpolant, so every coefficient stays small: y = x^2 with s'(first) = 2 x_1 (or at the last node),
+\* y = x^3 with both first (or both second) derivatives prescribed; order 1 with arbitrary data.
+InterpSweepN == IF Thorough THEN (3..40) \cup {64, 65} ELSE {3, 6, 9, 16, 17, 18, 24, 32, 33, 34}
+PowR(x, k) == IF k = 0 THEN ROne ELSE IF k = 1 THEN x ELSE IF k = 2 THEN RMul(x, x) ELSE RMul(x, RMul(x, x))
+SweepInterpCases(x) ==
+  LET n == SupSize(x)
+      a == SupFront(x)
+      b == SupBack(x)
+      ys(k) == [i \in 1..n |-> PowR(SupAt(x, i - 1), k)]
+  IN {[op |-> "Interp", x |-> x, y |-> YVar(n, 0), order |-> 1, dflt |-> 1, bcs |-> <<>>]}
+     \* (the harness' exact elimination works in 128-bit rationals: order 2 up to 34 nodes, order 3 up to 18)
+     \cup {[op |-> "Interp", x |-> x, y |-> ys(2), order |-> 2, dflt |-> 0, bcs |-> bc] :
+             bc \in IF n > 34 THEN {} ELSE {<<BC(0, 1, RMul(RTwo, a))>>, <<BC(1, 1, RMul(RTwo, b))>>, <<BC(1, 2, RTwo)>>}}
+     \cup {[op |-> "Interp", x |-> x, y |-> ys(3), order |-> 3, dflt |-> 0, bcs |-> bc] :
+             bc \in IF n > 18 THEN {} ELSE {<<BC(0, 1, RMul(FromInt(3), PowR(a, 2))), BC(1, 1, RMul(FromInt(3), PowR(b, 2)))>>,
+                     <<BC(0, 2, RMul(FromInt(6), a)), BC(1, 2, RMul(FromInt(6), b))>>,
+                     <<BC(1, 1, RMul(FromInt(3), PowR(b, 2))), BC(1, 2, RMul(FromInt(6), b))>>}}
+SweepInterpX == UNION {{SupWhole(SweepGrid(n - 1)), Sup(SweepGrid(n + 2), 2, n + 2)} : n \in InterpSweepN}
+
+Init == \/ \E g \in GridsI : \E x \in Windows(g) : st = [ph |-> 0, x |-> x, sw |-> 0]
+        \/ \E x \in SweepInterpX : st = [ph |-> 0, x |-> x, sw |-> 1]
 Next == /\ st.ph = 0
-        /\ \E c \in CasesFor(st.x) : st' = [ph |-> 1, c |-> c]
+        /\ \E c \in (IF st.sw = 1 THEN SweepInterpCases(st.x) ELSE CasesFor(st.x)) : st' = [ph |-> 1, c |-> c]
 Spec == Init /\ [][Next]_st
 Emit == (st'.ph = 1) => CSVWrite("%1$s", <<ToJson(st'.c)>>, OutFile)
 
